@@ -281,8 +281,13 @@ MgmtFailed(props, cfg, S, e) ==
 (* original (e.mirror) and must have had the same effect on the copy (e.i)                     *)
 MirrorFailed(props, cfg, S, e) ==
   IF "mirror" \in DOMAIN e
-  THEN Chk(props, "C20", "C20.LockStep", /\ e.mem[e.i] = e.mem[e.mirror] /\ e.info[e.i] = e.info[e.mirror]
-                                  /\ e.ret = e.mret /\ e.exc = e.mexc)
+  THEN LET same == /\ e.mem[e.i] = e.mem[e.mirror] /\ e.info[e.i] = e.info[e.mirror]
+                   /\ e.ret = e.mret /\ e.exc = e.mexc
+       IN Chk(props, "C20", "C20.LockStep", same)
+          \* C18 / C16 as a difference: instance e.mirror also received key()/lookup() queries (or calls that raised) in
+          \* between, its twin e.i did not - they must not be able to tell
+     \cup Chk(props, "C18", "C18.TwinWithoutQueriesAgrees", same)
+     \cup Chk(props, "C16", "C16.TwinWithoutRaisingCallsAgrees", same)
   ELSE {}
 
 (* an operation that never returned (the recorder gave up waiting): the decorated function, or its  *)
